@@ -449,8 +449,8 @@ fn check_type_relation<T: TypeLookup>(
                 fields: fields2,
             },
         ) => {
-            // Names must match if both have names
-            if name1.is_some() && name2.is_some() && name1 != name2 {
+            // A named pattern only admits tuples of that name, so self must carry the same name
+            if name2.is_some() && name1 != name2 {
                 return false;
             }
 
